@@ -396,6 +396,42 @@ pub fn mag_crystal_unchecked(u: i32, kind: Kind, action: RotationMagneticMomentA
     }
 }
 
+/// Hand-made magnetic crystal of UNI number `u`: given basis (columns), one magnetic species on the orbit
+/// of `x` with moment `m0` at `x` (used for the minimal defect witnesses of C13).
+pub fn explicit_crystal(u: i32, basis: Matrix3<f64>, x: Vector3<f64>, m0: Vector3<f64>, kind: Kind, action: RotationMagneticMomentAction) -> MagCrystal {
+    let mops = mag_conv_ops(u);
+    let ainv = basis.try_inverse().unwrap();
+    let mut pos: Vec<Vector3<f64>> = vec![];
+    let mut moms: Vec<Vector3<f64>> = vec![];
+    for o in &mops {
+        let r = o.operation.rotation.map(|e| e as f64);
+        let y = (r * x + o.operation.translation).map(|e| e.rem_euclid(1.0));
+        let cart = basis * r * ainv;
+        let m = act_moment(kind, action, &cart, idet(&o.operation.rotation), o.time_reversal, &m0);
+        if !pos.iter().any(|p: &Vector3<f64>| (p - y).map(|e| e - e.round()).norm() < 1e-7) {
+            pos.push(y);
+            moms.push(m);
+        }
+    }
+    let n = pos.len();
+    let c = Crystal {
+        cell: Cell::new(Lattice { basis }, pos, vec![1; n]),
+        truth: Truth {
+            hall: 0,
+            p: Matrix3::identity(),
+            shift: Vector3::zeros(),
+            scale: 1.0,
+            mirrored: false,
+            orbit_id: vec![0; n],
+            wyckoff_row: vec![-1; n],
+            noisy: false,
+            steps: vec![],
+            origin_atom: (0..n).collect(),
+        },
+    };
+    MagCrystal { c, base_moments: moms, q: Matrix3::identity(), kind, action, uni: u, construct_type: construct_type_of(u), variant: "plain".into(), forced_zero: false, redraws: 0 }
+}
+
 pub const POS_GAP: f64 = 0.2;
 pub const MOM_GAP: f64 = 0.05;
 
